@@ -31,6 +31,8 @@ TEMPLATES = {
     "trailing": "Mark: M1\nBlock: B1\n    Mark: M2\n    End block\n\n# comment\n\nMark: M3\n\n",
     "block_in_watch": "Watch: In1 > 0\n    Block: BW\n        Mark: W1\n        End block\n    Mark: W2\nBlock: B1\n    Mark: M1\n    Wait: 0.6s\n    End block\nMark: M2\n",
     "block_in_alarm": "Alarm: In1 > 0\n    Block: BA\n        Mark: A1\n        End block\nMark: M1\nBlock: B1\n    Mark: M2\n    End block\nMark: M3\n",
+    # openers whose body is empty or only a comment / blank line: the following lines belong to the enclosing scope
+    "empty_openers": "Block: B1\n    Watch: In1 > 0\n    # comment\n    Mark: M1\n    End block\nMark: M2\nWatch: In1 > 0\n\nMark: M3\n",
 }
 
 
